@@ -283,6 +283,26 @@ CHECKS.update({
         'DESIGN.md section 4 C09'),
 })
 
+CHECKS.update({
+    'C14': (
+        'Coq proof (n-2 triangles for fan and every ear-clipping run; signed areas add up to the cell area by the shoelace ear identity; corners are cell vertices; vertex table without duplicates, complete, lookups valid) + exact rational checker and vm_compute correspondence per run',
+        'Theorems C14_* prove for every ring that the triangulation as coded (fan for strictly convex cells, ear clipping '
+        'scanning i = 0.. with the boundary / midpoint ear test otherwise) yields n-2 triangles whenever it returns, that '
+        'their signed areas add up to the signed area of the cell for the fan and for every clipping sequence, that every '
+        'corner is a vertex of the cell, and that the vertex table has no duplicates, contains every cell coordinate and '
+        'resolves every lookup.  Per run every cell of generated datasets (holes, invalid cells, synthesised bounds with '
+        'repeated vertices) and of single-face meshes of eight special shapes in every rotation and both windings, placed '
+        'after a cell without geometry, is triangulated by emsarray; the triangles go through the exact rational checker '
+        'partition_okb evaluated in Coq (count, orientation, non-degenerate, on cell vertices, inside the cell, pairwise '
+        'interior-disjoint, areas adding up) and are compared one by one with the model triangulation; tags, vertex '
+        'indices and duplicates are checked on the implementation.',
+        'Trusted: Coq kernel; models Triangulate.v / Geom.v (Geom predicates are executable specifications).  PARTIAL, said '
+        'plainly: that an ear always exists (two-ears theorem) and that inside + interior-disjoint + equal area means exact '
+        'cover are classical geometry not formalised here; the exact-cover claim is decided per run by the checker on the '
+        'implementation\'s output and by correspondence, not by a closed theorem (C14_partition_partial).',
+        'DESIGN.md section 4 C14'),
+})
+
 NOT_YET = 'check not built yet in this session (work in progress; the design in DESIGN.md section 4 applies)'
 
 
